@@ -154,6 +154,8 @@ def run(ctx):
             recs.append(dict(base, ev='cart', y=Y.tolist(), c=cc, ongrid=ok))
             red = miller.reduce_indices(arg)
             recs.append(dict(base, ev='reduce', y=Y.tolist(), red=np.reshape(red, (n, 3)).astype(int).tolist()))
+            if not np.array_equal(np.reshape(arg, (n, 3)), Y) or not np.array_equal(X[:, 2], -(X[:, 0] + X[:, 1])):
+                ctx.violation('an index conversion modified the array passed to it', str(shape))
             Pl = rng.integers(-5, 6, (n, 3))
             Pl[(Pl == 0).all(axis=1)] = [0, 2, -1]
             nrm = np.reshape(miller.plane_crystal_to_cartesian(Pl.reshape(shape + (3,)), box), (n, 3))
